@@ -126,6 +126,25 @@ def sized_junk_case(rng):
     return case("req_run", [rng.choice([256, 8192])], [5], w, sched), ["preamble", "junk", "sized-junk", "multi-record"] + (["chunked"] if sched else [])
 
 
+def huge_params_case(rng, sched):
+    """a Params stream of about 80 KB (one large value among small pairs, as an upload form or a huge cookie produces) in records of up to
+    65535 bytes, on a 128 KiB buffer (the documentation suggests tens to hundreds of KiB): a single parse call sees 65536 and more
+    unparsed bytes in front of a Params record body; the environment must not depend on how the bytes were cut into reads"""
+    rid = 1
+    big = [rng.randrange(256) for _ in range(rng.choice([66000, 70000, 80000]))]
+    pairs = rand_pairs(rng, 2, 20) + [(list(b"HTTP_COOKIE"), big)] + rand_pairs(rng, 2, 20) + [(list(b"http_x"), list(b"1"))]
+    payload = nv_all(pairs)
+    first = rng.choice([65535, 65535, 65528, 40000])
+    recs = record(BEGIN, rid, [0, 1, 1, 0, 0, 0, 0, 0], 0)
+    i = 0
+    for n in (first, 65535, 65535):
+        if i < len(payload):
+            recs += record(PARAMS, rid, payload[i:i + n], rng.choice([0, 0, 1, 5]))
+            i += n
+    recs += record(PARAMS, rid, [], 0) + record(STDIN, rid, [], 0)
+    return case("req_run", [131072], [5], recs, sched), ["preamble", "huge-params", "multi-record", "big"] + (["chunked"] if sched else [])
+
+
 _gen_cases_c01 = gen_cases
 
 
@@ -136,6 +155,8 @@ def gen_cases(rng, tier):
             yield huge_junk_case(rng, P, pad, sched)
     for _ in range(60 if tier == "quick" else 3000):
         yield sized_junk_case(rng)
+    for sched in ([[], [10 ** 6]] if tier == "quick" else [[], [10 ** 6], [66000, 10 ** 6], [30000, 10 ** 6, 10 ** 6], [4096] * 40, [65536, 65536], [100, 10 ** 6]]):
+        yield huge_params_case(rng, sched)
 
 
 def nontrivial(line, tags):
@@ -144,7 +165,7 @@ def nontrivial(line, tags):
 
 def min_classes(tier):
     q = tier == "quick"
-    return {"every-cut": 200 if q else 5000, "junk": 100, "chunked": 200, "long-prefix": 100, "big": 3, "lossy": 100, "huge-junk": 6, "sized-junk": 60}
+    return {"every-cut": 200 if q else 5000, "junk": 100, "chunked": 200, "long-prefix": 100, "big": 3, "lossy": 100, "huge-junk": 6, "sized-junk": 60, "huge-params": 2}
 
 
 def oracle(line, impl_line):
